@@ -371,6 +371,14 @@ func (b *batchRun) mkItems() {
 		p := &bItem{b.nonce, 0}
 		b.payloads = []any{p}
 		b.prepRet = p
+	case "single-array": // a fixed-size array is ONE value (not a list of items)
+		a := [3]int{b.nonce, 1, 2}
+		b.payloads = []any{a}
+		b.prepRet = a
+	case "single-array-16":
+		a := [16]byte{byte(b.nonce), 9}
+		b.payloads = []any{a}
+		b.prepRet = a
 	case "single-nil-ptr": // a single value that is a nil pointer / a nil map: still one value, hence one item
 		var p *bItem
 		b.payloads = []any{p}
@@ -396,6 +404,14 @@ func (b *batchRun) indexOf(v any) int {
 		return o.I // the only item whose value is nil
 	}
 	switch x := v.(type) {
+	case [3]int:
+		if b.cs.Shape == "single-array" && len(b.payloads) == 1 && b.payloads[0] == any(x) {
+			return 0
+		}
+	case [16]byte:
+		if b.cs.Shape == "single-array-16" && len(b.payloads) == 1 && b.payloads[0] == any(x) {
+			return 0
+		}
 	case *bItem:
 		if x == nil && b.cs.Shape == "single-nil-ptr" {
 			return 0
